@@ -379,6 +379,9 @@ theorem pass3_ok (p : String) (env : Env) (s : Schema) : AllOK p (pass3 p env s)
   intro decl _
   cases decl with
   | entity e =>
+    simp only
+    split
+    · exact allOK_nil _
     simp only [superSubDiags]
     apply allOK_append
     · apply allOK_filterMap; intro x _ d hd
@@ -492,7 +495,11 @@ theorem pass4_ok (p : String) (env : Env) (s : Schema) : AllOK p (pass4 p env s)
     split
     · exact cycleDiags_ok _ _ _ _ _ (fun _ _ => by okd) (fun _ _ => by okd) _
     · exact allOK_nil _
-  | entity e => exact entityPass4_ok _ _ _ _
+  | entity e =>
+    simp only
+    split
+    · exact allOK_nil _
+    · exact entityPass4_ok _ _ _ _
   | func _ => exact allOK_nil _
   | syntaxError _ _ _ => exact allOK_nil _
 
@@ -711,11 +718,11 @@ theorem resolveDiags_ok (f : File) : ∀ d ∈ (resolveDiags f).diags, ∃ p, OK
     exact ⟨_, parseDeclsFrom_ok _ _ _ d hd⟩
   · obtain ⟨s, _, hd⟩ := hd; exact ⟨_, pass1_ok f s d hd⟩
   · obtain ⟨s, _, hd⟩ := hd; exact ⟨_, pass2_ok f _ s d hd⟩
-  · obtain ⟨s, _, hd⟩ := hd; exact ⟨_, pass3_ok _ _ s d hd⟩
-  · obtain ⟨s, _, hd⟩ := hd; exact ⟨_, pass4_ok _ _ s d hd⟩
+  · obtain ⟨s, _, hd⟩ := hd; exact ⟨_, pass3_ok _ _ _ d hd⟩
+  · obtain ⟨s, _, hd⟩ := hd; exact ⟨_, pass4_ok _ _ _ d hd⟩
   · obtain ⟨x, hx, hd⟩ := hd
     simp only [List.mem_map] at hx
     obtain ⟨s, _, rfl⟩ := hx
-    exact ⟨_, pass5_ok _ _ s d hd⟩
+    exact ⟨_, pass5_ok _ _ _ d hd⟩
 
 end StepModel.Express.Resolve
